@@ -275,6 +275,35 @@ def nd_contracts(P):
     P.axioms += [B >= 1]
 
 
+class _Tok:
+    def __init__(self, name):
+        self.name = name
+
+    def __repr__(self):
+        return f"<{self.name}>"
+
+
+Opaque_obs, Opaque_act = _Tok("stored-observation"), _Tok("stored-action")
+
+
+class CriticNet:
+    """critic called as a function: critic(obs)"""
+
+    def __init__(self, obj):
+        self.obj = obj
+
+    def call(self, ex, st, args, kwargs):
+        class _S:
+            def getattr(s, ex, st, name):
+                if name == "squeeze":
+                    return Fn(model=lambda ex, st, a, k: ("squeezed", ("critic", args[0])), name="squeeze")
+                raise Undecided(f"value attribute {name}")
+        return _S()
+
+    def getattr(self, ex, st, name):
+        raise Undecided(f"critic attribute {name}")
+
+
 def build(tier):
     P = Prop("C16")
     TT.install(P)
@@ -379,5 +408,76 @@ def build(tier):
                                "MultiBinary row; log-prob / entropy vs. torch.distributions on the raw outputs; re-evaluation of stored actions"))
     P.trusted += ["torch.distributions (densities, sampling, entropy) - outside the technique", "expression-tree execution (C19) and the row-generic Vec model (C14)"]
     P.assumptions += ["'masked actions have zero probability' relies on float underflow of exp(-1e8): not claimed (DESIGN 6)"]
-    P.uncovered += ["values of the densities (torch.distributions)", "PPO/IPPO call sites of evaluate_actions; StochasticActor.scale_action is under contract in C14"]
+    # ---- PPO.evaluate_actions (+ _get_action_and_values inlined): the log-probability returned for a STORED action is the head's
+    # log_prob of exactly that action, taken after the forward pass of the same (prepared) observation set the distribution - never the
+    # log-prob of the action sampled by that forward pass, never a stale distribution; values come from the critic on the same observation
+    LPM = z3.Function("mean_log_prob", z3.IntSort(), z3.IntSort(), z3.RealSort())
+    ids = {}
+    ident = lambda tok: ids.setdefault(repr(tok), len(ids) + 1)
+
+    class LogProb:
+        def __init__(self, dist, action):
+            self.dist, self.action = dist, action
+
+        def __eq__(self, other):
+            return isinstance(other, LogProb) and (other.dist, other.action) == (self.dist, self.action)
+
+        def __hash__(self):
+            return hash(("LogProb", repr(self.dist), repr(self.action)))
+
+        def getattr(self, ex, st, name):
+            if name == "mean":
+                return Fn(model=lambda ex, st, a, k: LPM(ident(self.dist), ident(self.action)), name="mean")
+            raise Undecided(f"log-prob attribute {name}")
+
+    class Squeezable:
+        def __init__(self, what):
+            self.what = what
+
+        def getattr(self, ex, st, name):
+            if name == "squeeze":
+                return Fn(model=lambda ex, st, a, k: ("squeezed", self.what), name="squeeze")
+            raise Undecided(f"value attribute {name}")
+    for share in (False, True):
+        for ent_tag, ent in (("entropy", Opaque("entropy-of-forward")), ("squashed", None)):
+            def eval_self(ex, st, label, share=share, ent=ent):
+                head = Obj("model.Head", label="head_net")
+                head.fields["dist"] = "stale"
+                head.fields["log_prob"] = Fn(model=lambda ex, st, a, k: LogProb(head.fields["dist"], a[0]), name="log_prob")
+
+                def forward_head(ex, st, a, k):
+                    head.fields["dist"] = ("dist-of", a[0], k.get("action_mask"))
+                    return (Opaque("sampled-action"), LogProb(head.fields["dist"], "sampled-action"), ent)
+                actor = Obj("model.Actor", label="actor")
+                actor.fields.update(dict(head_net=head, extract_features=Fn(model=lambda ex, st, a, k: ("latent", a[0]), name="extract_features"),
+                                         forward_head=Fn(model=forward_head, name="forward_head")))
+                critic = Obj("model.Critic", label="critic")
+                critic.fields.update(dict(forward_head=Fn(model=lambda ex, st, a, k: Squeezable(("critic-head", a[0])), name="forward_head")))
+                critic.call = None
+                o = Obj("agilerl.algorithms.ppo.PPO", label="self")
+                o.fields.update(dict(actor=actor, critic=CriticNet(critic) if not share else critic, share_encoders=share,
+                                     preprocess_observation=Fn(model=lambda ex, st, a, k: ("prepared", a[0]), name="preprocess_observation")))
+                return o
+
+            def eval_post(res, share=share, ent=ent):
+                if not (isinstance(res, tuple) and len(res) == 3):
+                    return z3.BoolVal(False)
+                lp, entropy, values = res
+                obs = ("prepared", Opaque_obs)
+                dist = ("dist-of", ("latent", obs), None)
+                want_v = ("squeezed", ("critic-head", ("latent", obs))) if share else ("squeezed", ("critic", obs))
+                ok = lp == LogProb(dist, Opaque_act) and values == want_v
+                if not ok:
+                    return z3.BoolVal(False)
+                if ent is not None:
+                    return z3.BoolVal(entropy is ent)
+                return z3ify(entropy) == -LPM(ident(dist), ident(Opaque_act))
+            tag = f"{'shared' if share else 'separate'}-{ent_tag}"
+            P.specns["eval_post_" + tag.replace("-", "_")] = eval_post
+            P.contract("agilerl.algorithms.ppo.PPO.evaluate_actions", variant=tag,
+                       params={"self": eval_self, "obs": (lambda ex, st, l: Opaque_obs), "actions": (lambda ex, st, l: Opaque_act)},
+                       inline=("agilerl.algorithms.ppo.PPO._get_action_and_values",),
+                       requires=[], frame_fields=False, ensures=[f"eval_post_{tag.replace('-', '_')}(result)"],
+                       replay={"adapter": "demos:run", "payload": {"name": "C16_demo_1"}})
+    P.uncovered += ["values of the densities (torch.distributions)", "IPPO's re-evaluation inside _learn_individual; StochasticActor.scale_action is under contract in C14"]
     return P
